@@ -413,7 +413,7 @@ def templates() -> Dict[str, Any]:
     reg("MUXd", None, lambda i: [{f"mx{i}": ("c0", _item(1, 2))}, {f"mx{i}": ("c1", {"a": 3, "b": 0x1234})}, {f"mx{i}": ("dflt", {"a": 4})}],
         lambda i: [P("VALUE", f"mx{i}", dop="MUXd")])
     reg("MUXn", None, lambda i: [{f"my{i}": ("c0", _item(1, 2))}, {f"my{i}": ("c1", {"a": 3, "b": 0x1234})}], lambda i: [P("VALUE", f"my{i}", dop="MUXn")])
-    reg("MUXe", None, lambda i: [{f"mz{i}": ("c0", _item(1, 2))}, {f"mz{i}": ("c1", {})}, {f"mz{i}": ("dflt", {"a": 4})}, {f"mz{i}": (7, {"a": 4})}],
+    reg("MUXe", None, lambda i: [{f"mz{i}": ("c0", _item(1, 2))}, {f"mz{i}": ("c1", {})}, {f"mz{i}": ("dflt", {"a": 4})}],
         lambda i: [P("VALUE", f"mz{i}", dop="MUXe")])
     reg("DTC", 3, lambda i: [{f"dt{i}": 0x123456}, {f"dt{i}": "P0001"}], lambda i: [P("VALUE", f"dt{i}", dop="dtc3")])
     reg("DTCENV", None, lambda i: [{f"dtc{i}": 1, f"env{i}": {"e_all": 5}}, {f"dtc{i}": 0x123456, f"env{i}": {"e_all": 5, "e_spec": 0x1234}}],
